@@ -202,6 +202,7 @@ func DefaultDelayUs(t int) int { return 3000 + 1700*(t%23) + 131*(t/23) }
 
 // Expected describes what the script delivered for one probe TTL (ground truth for oracles).
 type Delivered struct {
+	Conditional bool // an alias of another probe's identifier: genuine only if that probe had been sent on arrival
 	TTL     int
 	From    netip.Addr
 	AtNs    int64 // delivery time
@@ -445,14 +446,15 @@ func (s *Script) OnProbe(n *simnet.Net, sink *simnet.Sink, p *refcodec.Packet, r
 			if strings.HasPrefix(form, "sack") {
 				answers = simnet.SackMinTTL(form, ctx.SackHeld) // a duplicate ACK reports the lowest held segment
 			}
-			if !genuine && hs.AliasTTL > 0 && s.Seen[sink.ID][hs.AliasTTL] != nil {
-				genuine, answers = true, hs.AliasTTL
+			conditional := false
+			if !genuine && hs.AliasTTL > 0 {
+				genuine, answers, conditional = true, hs.AliasTTL, true
 			}
 			for c := 0; c <= hs.Copies; c++ {
 				d := int64(delay)*1000 + int64(c)*1_000_000
 				out = append(out, simnet.Reply{DelayNs: d, Raw: b, Meta: simnet.Meta{ToTTL: answers, Genuine: genuine, Tag: tag, From: from, Flow: sink.ID}})
 				if genuine {
-					s.Sent[sink.ID] = append(s.Sent[sink.ID], Delivered{TTL: answers, From: from, AtNs: vsched.Now() + d, Genuine: true, Form: form, Tag: tag})
+					s.Sent[sink.ID] = append(s.Sent[sink.ID], Delivered{TTL: answers, From: from, AtNs: vsched.Now() + d, Genuine: true, Form: form, Tag: tag, Conditional: conditional})
 				}
 			}
 		} else {
@@ -464,6 +466,7 @@ func (s *Script) OnProbe(n *simnet.Net, sink *simnet.Sink, p *refcodec.Packet, r
 			continue
 		}
 		var b []byte
+		noop := false
 		from := parseAddr(in.From, Evil(vi.V6))
 		if in.RawHex != "" {
 			b = unhex(in.RawHex)
@@ -473,6 +476,9 @@ func (s *Script) OnProbe(n *simnet.Net, sink *simnet.Sink, p *refcodec.Packet, r
 				prev, ok := s.Seen[sink.ID-1][in.AnswerTTL]
 				if !ok {
 					continue
+				}
+				if prev.Proto != refcodec.ProtoICMP && prev.Proto != refcodec.ProtoICMPv6 && prev.SrcPort == p.SrcPort {
+					continue // the kernel handed this run the previous run's ephemeral port: the flows are identical, nothing is stale
 				}
 				q = prev
 			} else if in.AnswerTTL != t {
@@ -492,9 +498,13 @@ func (s *Script) OnProbe(n *simnet.Net, sink *simnet.Sink, p *refcodec.Packet, r
 				panic(err)
 			}
 			if in.Perturb != nil {
+				orig := b
 				b, err = in.Perturb.Apply(b)
 				if err != nil {
 					panic(fmt.Sprintf("perturb %+v on %s: %v", in.Perturb, in.Form, err))
+				}
+				if string(orig) == string(b) {
+					noop = true // e.g. byte-swapping a port whose two bytes are equal: the packet is the genuine reply
 				}
 			}
 		}
@@ -521,16 +531,16 @@ func (s *Script) OnProbe(n *simnet.Net, sink *simnet.Sink, p *refcodec.Packet, r
 		}
 		b = finish(b, in.Truncate, in.Mutate)
 		d := int64(in.DelayUs) * 1000
-		gen, ans := in.Genuine, in.AnswerTTL
-		if !gen && in.AliasTTL > 0 && s.Seen[sink.ID][in.AliasTTL] != nil {
-			gen, ans = true, in.AliasTTL
+		gen, ans, conditional := in.Genuine || (noop && in.RawHex == "" && in.NoiseKind == "" && !in.PrevRun), in.AnswerTTL, false
+		if !gen && in.AliasTTL > 0 {
+			gen, ans, conditional = true, in.AliasTTL, true
 		}
 		for k := 1; k < in.Repeat; k++ {
 			out = append(out, simnet.Reply{DelayNs: d + int64(k)*int64(in.EveryUs)*1000, Raw: b, Meta: simnet.Meta{ToTTL: -1, Tag: in.Tag, From: from, Flow: sink.ID}})
 		}
 		out = append(out, simnet.Reply{DelayNs: d, Raw: b, Meta: simnet.Meta{ToTTL: ans, Genuine: gen, Tag: in.Tag, From: from, Flow: sink.ID}})
 		if gen {
-			s.Sent[sink.ID] = append(s.Sent[sink.ID], Delivered{TTL: ans, From: from, AtNs: vsched.Now() + d, Genuine: true, Form: in.Form, Tag: in.Tag})
+			s.Sent[sink.ID] = append(s.Sent[sink.ID], Delivered{TTL: ans, From: from, AtNs: vsched.Now() + d, Genuine: true, Form: in.Form, Tag: in.Tag, Conditional: conditional})
 		}
 	}
 	return out
